@@ -210,7 +210,7 @@ func (fs *FSResults) Stream(ctx context.Context, graph, id string) (*Stream, err
 				buf := make([]byte, bufSize)
 				scan.Buffer(buf, bufSize)
 				for scan.Scan() {
-					if ctx.Err() == context.Canceled {
+					if ctx.Err() != nil {
 						return
 					}
 					c := make([]byte, len(scan.Bytes()))
